@@ -333,6 +333,12 @@ func (r *RolloutReconciler) handleNormalRolling(c *RolloutContext) error {
 	}
 	// in case user modifies it with inappropriate value
 	util.CheckNextBatchIndexWithCorrect(c.Rollout)
+	// the release manager reads c.NewStatus, which was copied from c.Rollout.Status before the
+	// correction above, so the same correction has to be applied to the status that is actually used
+	if sub := c.NewStatus.GetSubStatus(); sub != nil &&
+		(sub.NextStepIndex <= 0 || sub.NextStepIndex > int32(len(c.Rollout.Spec.Strategy.GetSteps()))) {
+		sub.NextStepIndex = util.NextBatchIndex(c.Rollout, sub.CurrentStepIndex)
+	}
 
 	releaseManager, err := r.getReleaseManager(c.Rollout)
 	if err != nil {
